@@ -153,6 +153,15 @@ def fixed_programs():
                 out.append(head + [["NewRecord", ["d", "0"], kind, ["S", "ex:r"], [[q, v1], [k2, w]]]])
                 out.append(head + [["NewRecord", ["d", "0"], kind, ["S", "ex:r"], [[["S", "ex:k"], ["int", "1"]]]],
                                    ["AddAttrs", ["r", ["d", "0"], "0"], [[q, v1], [["S", "ex:k"], ["int", "2"]], [k2, w]]]])
+    # names given as full URIs (string and Identifier) whose local part holds the namespace URI once more, or the
+    # URI of another declared namespace: the name found must have exactly that URI
+    for u in (EXU + "x/" + EXU + "y", EXU + EXU, EXU + "a?u=http://zz.test/b", "http://zz.test/" + EXU + "z"):
+        for form in ("S", "I"):
+            head = [["NewDoc"], ["AddNs", ["d", "0"], "ex", EXU], ["AddNs", ["d", "0"], "zz", "http://zz.test/"]]
+            out.append(head + [["NewRecord", ["d", "0"], "Entity", [form, u], [[[form, u], ["int", "1"]]]]])
+            out.append(head + [["NewRecord", ["d", "0"], "Entity", ["S", "ex:e"], [[["S", "ex:k"], ["id", u]]]],
+                               ["NewRecord", ["d", "0"], "Usage", "none",
+                                [[["Q", "prov", PROVU, "activity"], ["str", "ex:a"]], [["Q", "prov", PROVU, "entity"], [("str" if form == "S" else "id"), u]]]]])
     return out
 
 
